@@ -90,3 +90,75 @@ def run(chk, cid, prog, units, cfgname):
                                 '`%s` is allocated with %s element(s) but the loop that initialises it runs over %s: the remaining entries keep arbitrary values '
                                 '(or the loop writes past the block)' % (base.a['name'], sorted(want), got), cfgname=cfgname)
     return n
+
+
+# ---------------------------------------------------------------- element size of a raw allocation
+RAW_ALLOCS = {'superlu_malloc', 'malloc', 'superlu_python_module_malloc'}
+
+
+# element sizes in the two supported index widths (32-bit, 64-bit int_t); types not listed have to match by name
+SIZES = {'char': (1, 1), 'int': (4, 4), 'unsigned int': (4, 4), 'float': (4, 4), 'double': (8, 8), 'singlecomplex': (8, 8), 'doublecomplex': (16, 16),
+         'int_t': (4, 8), 'flops_t': (4, 4), 'long long': (8, 8), 'long long int': (8, 8), 'int64_t': (8, 8), 'size_t': (8, 8)}
+
+
+def _too_small(u, t):
+    """a block of sizeof(u) elements used as elements of type t: too small in some supported configuration (unknown types: must match by name)"""
+    if u not in SIZES or t not in SIZES:
+        return True
+    return any(a < b for a, b in zip(SIZES[u], SIZES[t]))
+
+
+def _pointee(t):
+    t = (t or '').replace('const ', '').replace('volatile ', '').strip()
+    if not t.endswith('*'):
+        return None
+    return t[:-1].strip()
+
+
+def elem_size_rule(chk, cid, prog, units, cfgname, floor=1):
+    """`p = (T *) SUPERLU_MALLOC(count * sizeof(U))`: U must be T (by name - int_t and int are the same size only in the 32-bit-index build) and the
+    pointer that receives the block must point to T as well.  A block sized for a narrower element than the one it is indexed as is overrun."""
+    chk.clause(cid, 'raw allocations are sized with the element type of the pointer that receives them')
+    n = 0
+    for f in prog.all_funcs():
+        if units is not None and f.unit not in units:
+            continue
+        for x in f.body.walk():
+            tgt_t = rhs = None
+            if x.k == 'Assign' and x.a['op'] == '=':
+                tgt_t, rhs = x.c[0].t, x.c[1]
+            elif x.k == 'Var' and x.c:
+                tgt_t, rhs = x.t, x.c[0]
+            if rhs is None:
+                continue
+            casts = []
+            e = rhs
+            while e.k in ('Cast', 'Paren') and e.c:
+                if e.k == 'Cast' and e.a.get('cast') in ('BitCast', 'NoOp', None) and e.t:
+                    casts.append(e.t)
+                e = e.c[-1]
+            if e.k != 'Call' or callee_name(e) not in RAW_ALLOCS or len(e.c) < 2:
+                continue
+            sz = [y for y in e.c[1].walk() if y.k == 'Sizeof' and y.a.get('argtype')]
+            if len(sz) != 1:
+                continue
+            u = sz[0].a['argtype'].replace('struct ', '').strip()
+            if strip(e.c[1]) is sz[0]:
+                pass     # a single object
+            want = [t for t in (_pointee(c) for c in casts + [tgt_t]) if t not in (None, 'void', 'char', 'unsigned char')]
+            if not want:
+                continue
+            n += 1
+            chk.saw(unit=f.unit, func=f.unit + ':' + f.name)
+            inst = '%s:alloc-elem-size@%s' % (f.name, pretty(x.c[0] if x.k == 'Assign' else x)[:30] if x.k == 'Assign' else x.a.get('name'))
+            bad = [t for t in want if t.replace('struct ', '') != u and _too_small(u, t.replace('struct ', ''))]
+            if not bad:
+                chk.ok(cid, inst, sample='sizeof(%s) for %s' % (u, want[0]))
+            else:
+                chk.violate(cid, inst, loc(f, x), f.name,
+                            'block sized with sizeof(%s) is used through a pointer to %s, which is larger (in the 64-bit-index build at least): the block is '
+                            'too small for the accesses made through it' % (u, bad[0]), cfgname=cfgname)
+    if n < floor:
+        from ..run import AnalysisBroken
+        raise AnalysisBroken('elem_size_rule: %d allocation sites, floor %d' % (n, floor))
+    return n
